@@ -13,7 +13,7 @@ PROP = 'C01'
 RULE = ('pairs (Y,X) from one PRNG: n in 1..64 (60%), 65..1500 (37%), few thousands (3%; thorough up to 20000); families '
         'independent uniform over cardinalities {1,2,3,7,sqrt n,n/2,n}^2, Zipf, constant sides, all-distinct sides, Y=X, Y=perm(X), '
         'Y=f(X), planted signal with flips, singleton strata mixed with large ones, sparse codes < 2^20, equal-sum / equal-histogram pairs; plus call HISTORIES: 2-5 pairs scored through the same two arrays '
-        'refilled in place (the score must be a function of the vectors of the call only). '
+        'refilled in place (the score must be a function of the vectors of the call only); plus WIDE-STRATUM pairs (n = 60000..200000, Y all distinct, X with 1-3 values: one stratum with up to 2*10^5 classes) checked against the closed form MI = H(X) without a model run. '
         'Non-trivial = both sides non-constant; distinct = distinct joint partition structure (first-occurrence relabeling of the zipped pair).')
 ASSUMPTIONS = ['float32/fastmath rounding inside numba is outside the model: |impl - model_Float64| <= 4e-6*(1+ln n)',
                'codes >= 0 (property quantifier); n <= 20000 in the tie (theorems are for all n)']
@@ -102,6 +102,42 @@ def evaluate_history(ctx: Ctx, histories, oracle_only=False):
                 break
 
 
+def wide_pair(spec):
+    """all-distinct Y against an X with kx values: one stratum holds ~n/kx classes.  Closed form (no model run needed, the Lean
+    model is quadratic): Y determines X, so the plug-in MI is H(X); for kx = 1 it is 0 (the property's own clause)."""
+    import random
+    r = random.Random(f'wide:{spec["seed"]}')
+    n, kx = spec['n'], spec['kx']
+    Y = r.sample(range(n), n)
+    X = [r.randrange(kx) for _ in range(n)] if kx > 1 else [r.randrange(5)] * n
+    return Y, X
+
+
+def evaluate_wide(ctx: Ctx, specs):
+    import math
+    from collections import Counter
+    for spec in specs:
+        Y, X = wide_pair(spec)
+        n = len(X)
+        hx = -sum(c / n * math.log(c / n) for c in Counter(X).values())
+        t = tol(n)
+        ctx.evaluations += 1
+        ctx.count('family:wide-stratum')
+        ctx.count('n>2000')
+        a, b = impl_mi(Y, X, 1.0, False), impl_mi(X, Y, 1.0, False)
+        short = f'family=wide-stratum n={n}, Y all distinct, X with {spec["kx"]} value(s) (generated from seed {spec["seed"]!r})'
+        case = {'wide': spec}
+        if not abs(a - hx) <= t:
+            ctx.oracle_fail('plugin', f'{short}: score {a!r} != plug-in MI = H(X) = {hx!r} (tol {t:.2e})', case)
+        elif not abs(a - b) <= 2 * t:
+            ctx.oracle_fail('symmetry', f'{short}: score(Y,X)={a!r} != score(X,Y)={b!r}', case)
+
+
+def wide_specs(ctx, k):
+    return [{'n': ctx.rng.choice([100000, 120000] if i == 0 else [60000, 100000, 200000]), 'kx': (1 if i == 0 else ctx.rng.choice([1, 2, 3])),
+             'seed': ctx.rng.randrange(10 ** 6)} for i in range(k)]
+
+
 def corpus():
     return [('corpus', [0, 1, 0, 2], [1, 1, 0, 0]), ('corpus', [0], [0]), ('corpus', [3, 3, 3], [0, 1, 2]),
             ('corpus', [0, 1, 2, 3], [0, 1, 2, 3]), ('corpus', [0, 1, 0, 1, 2, 2, 1, 0], [1, 0, 1, 0, 2, 2, 0, 1])]
@@ -111,12 +147,15 @@ def run(ctx: Ctx):
     n = 6000 if ctx.thorough() else 900
     evaluate(ctx, corpus() + [gen_pair(ctx.rng, ctx.thorough()) for _ in range(n)])
     evaluate_history(ctx, [[[[0, 0], [0, 1]], [[0, 1], [0, 1]]]] + [gen_history(ctx.rng) for _ in range(600 if ctx.thorough() else 60)])
+    evaluate_wide(ctx, wide_specs(ctx, 4 if ctx.thorough() else 1))
 
 
 def replay(ctx: Ctx, payload):
     c = payload['case']
     if isinstance(c, dict) and 'history' in c:
         evaluate_history(ctx, [c['history']])
+    elif isinstance(c, dict) and 'wide' in c:
+        evaluate_wide(ctx, [c['wide']])
     else:
         evaluate(ctx, [(c.get('family', 'replay'), c['Y'], c['X'])])
 
@@ -133,4 +172,5 @@ def search(ctx: Ctx):
     cases += [gen_pair(sub.rng, False, maxn=400) for _ in range(3000)]
     evaluate(sub, cases, oracle_only=True)
     evaluate_history(sub, [gen_history(sub.rng) for _ in range(400)], oracle_only=True)
+    evaluate_wide(sub, wide_specs(sub, 2))
     return sub.oracle_failures
